@@ -764,6 +764,13 @@ def Pre (s : St) : Op → Prop
   | .remove _ _ => True
   | .add a c => a.id ∉ inventory s ∧ s.byLoc c = none
 
+private theorem step_dnew (s : St) (a : Asm) (o : Nat) :
+    step s (.dnew a o) = (dischargeSwap (preReg s a) a o).getD (preReg s a) := by
+  simp only [step, dischargeSwapFresh]; split <;> simp [*]
+
+private theorem inv_preReg (s : St) (a : Asm) (hI : Inv s) : Inv (preReg s a) :=
+  inv_of_same_shape s (preReg s a) rfl rfl rfl rfl rfl hI
+
 /-- **every operation preserves the invariant under its preconditions** -/
 theorem inv_step (s : St) (op : Op) (hI : Inv s) (hp : Pre s op) : Inv (step s op) := by
   cases op with
@@ -774,11 +781,11 @@ theorem inv_step (s : St) (op : Op) (hI : Inv s) (hp : Pre s op) : Inv (step s o
     | some s' => exact inv_swap s s' i j hp h hI
   | cascade l => exact inv_cascade l s hp hI
   | dnew a o =>
-    simp only [step]
-    cases h : dischargeSwap s a o with
-    | none => exact hI
+    rw [step_dnew]
+    cases h : dischargeSwap (preReg s a) a o with
+    | none => exact inv_preReg s a hI
     | some s' =>
-      exact inv_dischargeSwap s s' a o h (fun hx => hp (List.mem_append_left _ hx)) hI
+      exact inv_dischargeSwap (preReg s a) s' a o h (fun hx => hp (List.mem_append_left _ hx)) (inv_preReg s a hI)
   | dsfp i o =>
     simp only [step]
     split
@@ -1050,14 +1057,14 @@ theorem dischargeSwap_inventory (s s' : St) (incoming : Asm) (outId : Nat)
 
 /-- assemblies charged by an operation (when it succeeds) -/
 def charged (s : St) : Op → List Nat
-  | .dnew a o => if (dischargeSwap s a o).isSome then [a.id] else []
+  | .dnew a o => if (dischargeSwap (preReg s a) a o).isSome then [a.id] else []
   | .add a _ => [a.id]
   | _ => []
 
 /-- assemblies purged by an operation (when it succeeds) -/
 def purgedBy (s : St) : Op → List Nat
   | .remove i d => if (removeAssembly s i d).isSome && !(d && s.track) then [i] else []
-  | .dnew a o => if (dischargeSwap s a o).isSome && !s.track then [o] else []
+  | .dnew a o => if (dischargeSwap (preReg s a) a o).isSome && !s.track then [o] else []
   | .dsfp i o =>
     match s.sfp.find? (fun a => a.id = i) with
     | some a => if (dischargeSwap s a o).isSome && !s.track then [o] else []
@@ -1095,13 +1102,16 @@ theorem conservation_step (s : St) (op : Op) (hI : Inv s) (hp : Pre s op) :
     | nil => exact List.Perm.refl _
     | cons a0 rest => simp only [cascade]; rw [cascadeLoop_inventory]
   | dnew a o =>
-    simp only [step, purgedBy, charged]
-    cases h : dischargeSwap s a o with
-    | none => simp
+    rw [step_dnew]
+    simp only [purgedBy, charged]
+    cases h : dischargeSwap (preReg s a) a o with
+    | none => simp; exact List.Perm.refl _
     | some s' =>
-      have hin : a.id ∉ coreIds s := fun hx => hp (List.mem_append_left _ hx)
-      have hns : a.id ∉ sfpIds s := fun hx => hp (List.mem_append_right _ hx)
-      have := dischargeSwap_inventory s s' a o h hin hI
+      have hin : a.id ∉ coreIds (preReg s a) := fun hx => hp (List.mem_append_left _ hx)
+      have hns : a.id ∉ sfpIds (preReg s a) := fun hx => hp (List.mem_append_right _ hx)
+      have := dischargeSwap_inventory (preReg s a) s' a o h hin (inv_preReg s a hI)
+      change (if s.track = true then [] else [o]) ++ inventory s' ~
+        (if a.id ∈ sfpIds (preReg s a) then [] else [a.id]) ++ inventory s at this
       simp only [hns, if_false] at this
       cases htk : s.track <;> simpa [htk] using this
   | dsfp i o =>
@@ -1531,10 +1541,10 @@ theorem step_track (s : St) (op : Op) : (step s op).track = s.track := by
     | nil => rfl
     | cons a0 rest => exact cascadeLoop_track a0 rest s
   | dnew a o =>
-    simp only [step]
-    cases h : dischargeSwap s a o with
+    rw [step_dnew]
+    cases h : dischargeSwap (preReg s a) a o with
     | none => rfl
-    | some s' => exact dischargeSwap_track s s' a o h
+    | some s' => exact dischargeSwap_track (preReg s a) s' a o h
   | dsfp i o =>
     simp only [step]
     split
@@ -1572,10 +1582,20 @@ theorem blkFound_step (s : St) (op : Op) (hI : Inv s) (hp : Pre s op) (htk : s.t
     | nil => exact hB
     | cons a0 rest => exact blkFound_cascadeLoop a0 rest s (hp a0 rest rfl) hI hB
   | dnew a o =>
-    simp only [step]
-    cases h : dischargeSwap s a o with
-    | none => exact hB
-    | some s' => exact blkFound_dischargeSwap s s' a o h htk (Or.inr hbp) hB
+    rw [step_dnew]
+    have hB0 : BlkFound (preReg s a) := by
+      constructor
+      · intro p hp' b hb; show setKeys s.bbn _ true b.bid = true
+        simp only [setKeys]; split
+        · rfl
+        · exact hB.1 p hp' b hb
+      · intro x hx b hb; show setKeys s.bbn _ true b.bid = true
+        simp only [setKeys]; split
+        · rfl
+        · exact hB.2 x hx b hb
+    cases h : dischargeSwap (preReg s a) a o with
+    | none => exact hB0
+    | some s' => exact blkFound_dischargeSwap (preReg s a) s' a o h htk (Or.inr hbp) hB0
   | dsfp i o =>
     simp only [step]
     split
@@ -1669,9 +1689,9 @@ private theorem binv_of_holds_iff (s t : St) (hm : ∀ a, Holds t a ↔ Holds s 
 private theorem asm_ext (a b : Asm) (h1 : a.id = b.id) (h2 : a.blocks = b.blocks) : a = b := by
   cases a; cases b; simp_all
 
-private theorem holds_unique (s : St) (hI : Inv s) (a b : Asm) (ha : Holds s a) (hb : Holds s b)
+private theorem holds_unique (s : St) (hN : (inventory s).Nodup) (a b : Asm) (ha : Holds s a) (hb : Holds s b)
     (hid : a.id = b.id) : a = b := by
-  have hnd := hI.nodup
+  have hnd := hN
   have hndc : (s.core.map (·.1.id)).Nodup := (List.nodup_append.1 hnd).1
   have hnds : (s.sfp.map (·.id)).Nodup := (List.nodup_append.1 hnd).2.1
   have hdisj : ∀ x ∈ coreIds s, ∀ y ∈ sfpIds s, x ≠ y := (List.nodup_append.1 hnd).2.2
@@ -1683,7 +1703,7 @@ private theorem holds_unique (s : St) (hI : Inv s) (a b : Asm) (ha : Holds s a) 
 
 /-- two held assemblies trade blocks (their block lists together stay the same multiset): the block-level
 invariant is kept -/
-private theorem binv_exchange (s t : St) (hI : Inv s) (hB : BInv s) (a1 a2 a1' a2' : Asm)
+private theorem binv_exchange (s t : St) (hI : (inventory s).Nodup) (hB : BInv s) (a1 a2 a1' a2' : Asm)
     (h1 : Holds s a1) (h2 : Holds s a2) (hne : a1.id ≠ a2.id) (e1 : a1'.id = a1.id) (e2 : a2'.id = a2.id)
     (hp : (a1'.blocks ++ a2'.blocks).Perm (a1.blocks ++ a2.blocks))
     (hm : ∀ x, Holds t x ↔ (Holds s x ∧ x.id ≠ a1.id ∧ x.id ≠ a2.id) ∨ x = a1' ∨ x = a2')
@@ -1748,10 +1768,10 @@ private theorem binv_exchange (s t : St) (hI : Inv s) (hB : BInv s) (a1 a2 a1' a
     · exact (K'.2.2 _ (List.mem_map.2 ⟨b', hbx', rfl⟩) _ (List.mem_map.2 ⟨b, hbx, rfl⟩)).symm
     · exact absurd rfl hxx
 
-private theorem binv_swap (s s' : St) (i1 i2 : Nat) (hne : i1 ≠ i2) (h : swap s i1 i2 = some s') (hI : Inv s)
-    (hB : BInv s) : BInv s' := by
-  have hndc : (s.core.map (·.1.id)).Nodup := (List.nodup_append.1 hI.nodup).1
-  have hdisj : ∀ x ∈ coreIds s, ∀ y ∈ sfpIds s, x ≠ y := (List.nodup_append.1 hI.nodup).2.2
+private theorem binv_swap (s s' : St) (i1 i2 : Nat) (hne : i1 ≠ i2) (h : swap s i1 i2 = some s')
+    (hI : (inventory s).Nodup) (hB : BInv s) : BInv s' := by
+  have hndc : (s.core.map (·.1.id)).Nodup := (List.nodup_append.1 hI).1
+  have hdisj : ∀ x ∈ coreIds s, ∀ y ∈ sfpIds s, x ≠ y := (List.nodup_append.1 hI).2.2
   obtain ⟨a1, c1, a2, c2, a1', a2', m1, m2, k1, k2, ht, hcore, _, hsfp, _, hbbn, _⟩ := swap_shape s s' i1 i2 hne h hndc
   obtain ⟨e1, e2, _, _⟩ := transfer_ids _ _ _ _ ht
   refine binv_exchange s s' hI hB a1 a2 a1' a2' (Or.inl ⟨c1, m1⟩) (Or.inl ⟨c2, m2⟩) (by rw [k1, k2]; exact hne) e1 e2
@@ -1781,7 +1801,8 @@ private theorem binv_swap (s s' : St) (i1 i2 : Nat) (hne : i1 ≠ i2) (h : swap 
     · exact Or.inl ⟨c2, List.mem_map.2 ⟨(a1, c1), m1, by simp [k1]⟩⟩
     · exact Or.inl ⟨c1, List.mem_map.2 ⟨(a2, c2), m2, by simp [k2, Ne.symm hne]⟩⟩
 
-private theorem binv_cascadeLoop (a0 : Nat) (l : List Nat) (s : St) (hne : ∀ ak ∈ l, a0 ≠ ak) (hI : Inv s)
+private theorem binv_cascadeLoop (a0 : Nat) (l : List Nat) (s : St) (hne : ∀ ak ∈ l, a0 ≠ ak)
+    (hI : (inventory s).Nodup)
     (hB : BInv s) : BInv (cascadeLoop a0 s l).1 := by
   induction l generalizing s with
   | nil => exact hB
@@ -1791,13 +1812,16 @@ private theorem binv_cascadeLoop (a0 : Nat) (l : List Nat) (s : St) (hne : ∀ a
     · exact hB
     · rename_i s' hs
       have hn := hne ak List.mem_cons_self
-      exact ih s' (fun x hx => hne x (List.mem_cons_of_mem _ hx)) (inv_swap s s' a0 ak hn hs hI)
+      have hinv : inventory s' = inventory s := by
+        obtain ⟨h1, h2, _⟩ := swap_keeps_inventory s s' a0 ak hs
+        unfold inventory coreIds sfpIds; rw [h1, h2]
+      exact ih s' (fun x hx => hne x (List.mem_cons_of_mem _ hx)) (by rw [hinv]; exact hI)
         (binv_swap s s' a0 ak hn hs hI hB)
 
-private theorem binv_removeAssembly (s s' : St) (i : Nat) (d : Bool) (h : removeAssembly s i d = some s') (hI : Inv s)
-    (hB : BInv s) : BInv s' := by
-  have hndc : (s.core.map (·.1.id)).Nodup := (List.nodup_append.1 hI.nodup).1
-  have hdisj : ∀ x ∈ coreIds s, ∀ y ∈ sfpIds s, x ≠ y := (List.nodup_append.1 hI.nodup).2.2
+private theorem binv_removeAssembly (s s' : St) (i : Nat) (d : Bool) (h : removeAssembly s i d = some s')
+    (hI : (inventory s).Nodup) (hB : BInv s) : BInv s' := by
+  have hndc : (s.core.map (·.1.id)).Nodup := (List.nodup_append.1 hI).1
+  have hdisj : ∀ x ∈ coreIds s, ∀ y ∈ sfpIds s, x ≠ y := (List.nodup_append.1 hI).2.2
   obtain ⟨a0, c0, hm0, hid0, hcore, _, _, htr, hpu⟩ := removeAssembly_spec s s' i d h
   have h0 : Holds s a0 := Or.inl ⟨c0, hm0⟩
   cases hdt : (d && s.track)
@@ -1935,59 +1959,10 @@ private theorem binv_putIn (s1 s' : St) (a : Asm) (c : Cell) (h : putIn s1 a.id 
         · exact hD x' hx1' hxi'
         · exact absurd rfl hne
 
-private theorem binv_dischargeSwap_fresh (s s' : St) (incoming : Asm) (outId : Nat)
-    (h : dischargeSwap s incoming outId = some s') (hI : Inv s) (hB : BInv s) (hns : NoStat incoming)
-    (hnd : (incoming.blocks.map (·.bid)).Nodup)
-    (hU : ∀ x, Holds s x → x.id = incoming.id → x = incoming)
-    (hD : ∀ x, Holds s x → x.id ≠ incoming.id → ∀ b ∈ incoming.blocks, ∀ b' ∈ x.blocks, b.bid ≠ b'.bid) :
-    BInv s' := by
-  have hndc : (s.core.map (·.1.id)).Nodup := (List.nodup_append.1 hI.nodup).1
-  unfold dischargeSwap at h
-  split at h
-  · exact absurd h (by simp)
-  · rename_i out c hf
-    obtain ⟨hm, hid⟩ := find_id hf
-    split at h
-    · exact absurd h (by simp)
-    · rename_i inc' out' ht
-      obtain ⟨e1, e2, _, _⟩ := transfer_ids _ _ _ _ ht
-      obtain ⟨b1, b2⟩ := transfer_no_stat _ _ _ _ ht hns
-      have x1 : inc' = incoming := asm_ext _ _ e1 b1
-      have x2 : out' = out := asm_ext _ _ e2 b2
-      subst x1; subst x2
-      -- nothing was exchanged: the state after `_transferStationaryBlocks` is the state before
-      have hx : xfer s outId out' c inc'.id inc' = s := by
-        have hc : updCore s.core outId out' c = s.core := by
-          unfold updCore
-          conv_rhs => rw [← List.map_id s.core]
-          apply List.map_congr_left
-          intro p hp
-          split
-          · rename_i hpi
-            exact (ids_inj hndc hp hm (by rw [hpi, hid])).symm
-          · rfl
-        have hs : s.sfp.map (fun a => if a.id = inc'.id then inc' else a) = s.sfp := by
-          conv_rhs => rw [← List.map_id s.sfp]
-          apply List.map_congr_left
-          intro a ha
-          split
-          · rename_i hai; exact (hU a (Or.inr ha) hai).symm
-          · rfl
-        unfold xfer; rw [hc, hs]
-      rw [hx] at h
-      cases hrem : removeAssembly s outId true with
-      | none => rw [hrem] at h; exact absurd h (by simp)
-      | some s1 =>
-        rw [hrem] at h
-        simp only [Option.bind_some] at h
-        have hB1 := binv_removeAssembly s s1 outId true hrem hI hB
-        have hsub := removeAssembly_holds_sub s s1 outId true hrem
-        exact binv_putIn s1 s' inc' c h hB1 hnd (fun x hx => hU x (hsub x hx)) (fun x hx => hD x (hsub x hx))
-
-private theorem inv_xfer (s : St) (hI : Inv s) (incoming out inc' out' : Asm) (c : Cell) (outId : Nat)
+private theorem nodup_xfer (s : St) (hN : (inventory s).Nodup) (incoming out inc' out' : Asm) (c : Cell) (outId : Nat)
     (hm : (out, c) ∈ s.core) (hid : out.id = outId) (ht : transfer incoming out = some (inc', out')) :
-    Inv (xfer s outId out' c incoming.id inc') := by
-  have hndc : (s.core.map (·.1.id)).Nodup := (List.nodup_append.1 hI.nodup).1
+    (inventory (xfer s outId out' c incoming.id inc')).Nodup := by
+  have hndc : (s.core.map (·.1.id)).Nodup := (List.nodup_append.1 hN).1
   obtain ⟨e1, e2, _, _⟩ := transfer_ids _ _ _ _ ht
   have hsf : (s.sfp.map (fun a => if a.id = incoming.id then inc' else a)).map (·.id) = s.sfp.map (·.id) := by
     rw [List.map_map]
@@ -1997,26 +1972,19 @@ private theorem inv_xfer (s : St) (hI : Inv s) (incoming out inc' out' : Asm) (c
     split
     · rename_i hai; rw [e1, hai]
     · rfl
-  apply inv_of_same_shape s (xfer s outId out' c incoming.id inc') _ hsf rfl rfl rfl hI
-  show (updCore s.core outId out' c).map (fun p => (p.1.id, p.2)) = s.core.map (fun p => (p.1.id, p.2))
-  unfold updCore
-  rw [List.map_map]
-  apply List.map_congr_left
-  intro p hp
-  simp only [Function.comp]
-  split
-  · rename_i hpi
-    have : p = (out, c) := ids_inj hndc hp hm (by rw [hpi, hid])
-    rw [this]; simp [e2]
-  · rfl
+  have hshape := updCore_same_cell s.core outId out out' c hm hid (e2.trans hid) hndc
+  have : inventory (xfer s outId out' c incoming.id inc') = inventory s := by
+    unfold inventory coreIds sfpIds xfer
+    simp only []
+    rw [hshape.1, hsf]
+  rw [this]; exact hN
 
 /-- `dischargeSwap` with an incoming assembly from the pool (stationary blocks allowed: they change hands) -/
 private theorem binv_dischargeSwap_pooled (s s' : St) (incoming : Asm) (outId : Nat)
-    (h : dischargeSwap s incoming outId = some s') (hI : Inv s) (hB : BInv s) (hin : incoming ∈ s.sfp) :
+    (h : dischargeSwap s incoming outId = some s') (hI : (inventory s).Nodup) (hB : BInv s) (hin : incoming ∈ s.sfp) :
     BInv s' := by
-  have hndc : (s.core.map (·.1.id)).Nodup := (List.nodup_append.1 hI.nodup).1
-  have hnds : (s.sfp.map (·.id)).Nodup := (List.nodup_append.1 hI.nodup).2.1
-  have hdisj : ∀ x ∈ coreIds s, ∀ y ∈ sfpIds s, x ≠ y := (List.nodup_append.1 hI.nodup).2.2
+  have hndc : (s.core.map (·.1.id)).Nodup := (List.nodup_append.1 hI).1
+  have hdisj : ∀ x ∈ coreIds s, ∀ y ∈ sfpIds s, x ≠ y := (List.nodup_append.1 hI).2.2
   unfold dischargeSwap at h
   split at h
   · exact absurd h (by simp)
@@ -2028,7 +1996,7 @@ private theorem binv_dischargeSwap_pooled (s s' : St) (incoming : Asm) (outId : 
       obtain ⟨e1, e2, _, _⟩ := transfer_ids _ _ _ _ ht
       have hinc_ne : incoming.id ≠ out.id := fun e =>
         hdisj out.id (List.mem_map.2 ⟨_, hm, rfl⟩) incoming.id (List.mem_map.2 ⟨_, hin, rfl⟩) e.symm
-      have hI0 := inv_xfer s hI incoming out inc' out' c outId hm hid ht
+      have hI0 := nodup_xfer s hI incoming out inc' out' c outId hm hid ht
       -- who is held after the exchange
       have hholds : ∀ x, Holds (xfer s outId out' c incoming.id inc') x ↔
           (Holds s x ∧ x.id ≠ incoming.id ∧ x.id ≠ out.id) ∨ x = inc' ∨ x = out' := by
@@ -2073,11 +2041,101 @@ private theorem binv_dischargeSwap_pooled (s s' : St) (incoming : Asm) (outId : 
           (fun x hx e => holds_unique _ hI0 x inc' (hsub x hx) hinc0 e)
           (fun x hx hne => hB0.disj inc' x hinc0 (hsub x hx) (Ne.symm hne))
 
-/-- extra preconditions of the block-level theorem: the blocks of a charged assembly are new (distinct, shared
-with no assembly the reactor holds); a FRESH assembly entering through `dischargeSwap` carries no stationary block
-(the excluded point `discharge-fresh-stationary-block-names`). Core and pool assemblies may carry stationary blocks. -/
+/-- the fresh assembly of a `dischargeSwap` behaves, once its blocks are registered (fix 2acbfbd), exactly like an
+assembly taken from the pool: the discharge on the state with `a` appended to the pool gives the same result -/
+private theorem dischargeSwap_virtual_pool (s : St) (a : Asm) (o : Nat) :
+    dischargeSwap { preReg s a with sfp := s.sfp ++ [a] } a o = dischargeSwap (preReg s a) a o := by
+  unfold dischargeSwap
+  show (match s.core.find? (fun p => p.1.id = o) with | none => none | some (out, c) => _) =
+    (match s.core.find? (fun p => p.1.id = o) with | none => none | some (out, c) => _)
+  cases hf : s.core.find? (fun p => p.1.id = o) with
+  | none => rfl
+  | some q =>
+    obtain ⟨out, c⟩ := q
+    simp only []
+    cases ht : transfer a out with
+    | none => rfl
+    | some r =>
+      obtain ⟨inc', out'⟩ := r
+      have e1 : inc'.id = a.id := (transfer_ids _ _ _ _ ht).1
+      simp only []
+      unfold removeAssembly xfer preReg
+      simp only []
+      cases hf2 : (updCore s.core o out' c).find? (fun p => p.1.id = o) with
+      | none => rfl
+      | some q2 =>
+        obtain ⟨a0, c0⟩ := q2
+        simp only []
+        by_cases hb : s.byLoc c0 = none
+        · simp [hb]
+        · simp only [hb, if_false]
+          cases htk : s.track
+          · simp [putIn, coreAdd, List.filter_append, e1]
+          · simp [putIn, coreAdd, List.filter_append, e1]
+
+/-- `dischargeSwap` with a fresh incoming assembly whose blocks were registered first (fixed code): stationary blocks
+allowed, they change hands like anybody else's -/
+private theorem binv_dischargeSwap_freshReg (s s' : St) (a : Asm) (o : Nat)
+    (h : dischargeSwap (preReg s a) a o = some s') (hN : (inventory s).Nodup) (hB : BInv s)
+    (hfresh : a.id ∉ inventory s) (hnd : (a.blocks.map (·.bid)).Nodup)
+    (hdj : ∀ x, Holds s x → ∀ b ∈ a.blocks, ∀ b' ∈ x.blocks, b.bid ≠ b'.bid) : BInv s' := by
+  rw [← dischargeSwap_virtual_pool] at h
+  have hnotin : ∀ x, Holds s x → x.id ≠ a.id := by
+    intro x hx e
+    apply hfresh
+    rcases hx with ⟨c, hc⟩ | hs
+    · exact List.mem_append_left _ (List.mem_map.2 ⟨_, hc, e⟩)
+    · exact List.mem_append_right _ (List.mem_map.2 ⟨_, hs, e⟩)
+  have hholds : ∀ x, Holds { preReg s a with sfp := s.sfp ++ [a] } x ↔ Holds s x ∨ x = a := by
+    intro x
+    unfold Holds
+    show ((∃ c, (x, c) ∈ s.core) ∨ x ∈ s.sfp ++ [a]) ↔ _
+    rw [List.mem_append, List.mem_singleton]; tauto
+  have hNP : (inventory { preReg s a with sfp := s.sfp ++ [a] }).Nodup := by
+    show (coreIds s ++ (s.sfp ++ [a]).map (·.id)).Nodup
+    rw [List.map_append, ← List.append_assoc]
+    rw [List.nodup_append]
+    refine ⟨hN, by simp, ?_⟩
+    intro x hx y hy
+    simp only [List.map_cons, List.map_nil, List.mem_singleton] at hy
+    subst hy; intro e; subst e; exact hfresh hx
+  have hBP : BInv { preReg s a with sfp := s.sfp ++ [a] } := by
+    refine ⟨?_, ?_, ?_, ?_⟩
+    · intro x hx
+      rcases (hholds x).1 hx with hx | rfl
+      · exact hB.nodupIn x hx
+      · exact hnd
+    · intro x hx b hb
+      show setKeys s.bbn (a.blocks.map (·.bid)) true b.bid = true
+      simp only [setKeys]; split
+      · rfl
+      · rename_i hnin
+        rcases (hholds x).1 hx with hx | rfl
+        · exact hB.found x hx b hb
+        · exact absurd (List.mem_map.2 ⟨b, hb, rfl⟩) hnin
+    · intro y hy
+      change setKeys s.bbn (a.blocks.map (·.bid)) true y = true at hy
+      simp only [setKeys] at hy
+      split at hy
+      · rename_i hin
+        obtain ⟨b, hb, hbe⟩ := List.mem_map.1 hin
+        exact ⟨a, (hholds a).2 (Or.inr rfl), b, hb, hbe⟩
+      · obtain ⟨x, hx, b, hb, hbe⟩ := hB.only y hy
+        exact ⟨x, (hholds x).2 (Or.inl hx), b, hb, hbe⟩
+    · intro x x' hx hx' hne b hb b' hb'
+      rcases (hholds x).1 hx with hx1 | hxa <;> rcases (hholds x').1 hx' with hx1' | hxa'
+      · exact hB.disj x x' hx1 hx1' hne b hb b' hb'
+      · rw [hxa'] at hb'; exact (hdj x hx1 b' hb' b hb).symm
+      · rw [hxa] at hb; exact hdj x' hx1' b hb b' hb'
+      · exact absurd (by rw [hxa, hxa']) hne
+  exact binv_dischargeSwap_pooled _ s' a o h hNP hBP (List.mem_append_right _ (by simp))
+
+/-- extra preconditions of the block-level theorem: the blocks of a charged assembly are new (distinct, shared with
+no assembly the reactor holds); a fresh discharge swap is not refused (a refused one leaves the fresh assembly's
+block names registered - fix 2acbfbd registers them before the stationary-position test). Fresh, pool and core
+assemblies may all carry stationary blocks. -/
 def BPreP (s : St) : Op → Prop
-  | .dnew a _ => NoStat a ∧ (a.blocks.map (·.bid)).Nodup ∧
+  | .dnew a o => (dischargeSwap (preReg s a) a o).isSome = true ∧ (a.blocks.map (·.bid)).Nodup ∧
       ∀ x, Holds s x → ∀ b ∈ a.blocks, ∀ b' ∈ x.blocks, b.bid ≠ b'.bid
   | .add a _ => (a.blocks.map (·.bid)).Nodup ∧ ∀ x, Holds s x → ∀ b ∈ a.blocks, ∀ b' ∈ x.blocks, b.bid ≠ b'.bid
   | _ => True
@@ -2095,19 +2153,20 @@ theorem binv_step (s : St) (op : Op) (hI : Inv s) (hp : Pre s op) (hbp : BPreP s
     simp only [step]
     cases h : swap s i j with
     | none => exact hB
-    | some s' => exact binv_swap s s' i j hp h hI hB
+    | some s' => exact binv_swap s s' i j hp h hI.nodup hB
   | cascade l =>
     simp only [step]
     cases l with
     | nil => exact hB
-    | cons a0 rest => exact binv_cascadeLoop a0 rest s (hp a0 rest rfl) hI hB
+    | cons a0 rest => exact binv_cascadeLoop a0 rest s (hp a0 rest rfl) hI.nodup hB
   | dnew a o =>
-    simp only [step]
-    cases h : dischargeSwap s a o with
-    | none => exact hB
+    rw [step_dnew]
+    obtain ⟨hsome, hnd, hdj⟩ := hbp
+    cases h : dischargeSwap (preReg s a) a o with
+    | none => rw [h] at hsome; exact absurd hsome (by simp)
     | some s' =>
-      exact binv_dischargeSwap_fresh s s' a o h hI hB hbp.1 hbp.2.1
-        (fun x hx e => absurd e (hnotin a hp x hx)) (fun x hx _ => hbp.2.2 x hx)
+      simp only [Option.getD_some]
+      exact binv_dischargeSwap_freshReg s s' a o h hI.nodup hB hp hnd hdj
   | dsfp i o =>
     simp only [step]
     split
@@ -2115,13 +2174,13 @@ theorem binv_step (s : St) (op : Op) (hI : Inv s) (hp : Pre s op) (hbp : BPreP s
       cases h : dischargeSwap s a o with
       | none => exact hB
       | some s' =>
-        exact binv_dischargeSwap_pooled s s' a o h hI hB (List.mem_of_find?_eq_some ha)
+        exact binv_dischargeSwap_pooled s s' a o h hI.nodup hB (List.mem_of_find?_eq_some ha)
     · exact hB
   | remove i d =>
     simp only [step]
     cases h : removeAssembly s i d with
     | none => exact hB
-    | some s' => exact binv_removeAssembly s s' i d h hI hB
+    | some s' => exact binv_removeAssembly s s' i d h hI.nodup hB
   | add a c =>
     simp only [step]
     obtain ⟨hfresh, hfree⟩ := hp
@@ -2149,9 +2208,9 @@ def BRunOK : St → List Op → Prop
 /-- **block lookups over arbitrary histories, purging included** (tracking on or off, `removeAssembly` with
 discharge or purge, swaps, cascades, discharge swaps, adds): every block of every assembly in the core or the pool
 is found in `blocksByName`, and `blocksByName` resolves nothing else — in particular no block of a purged assembly.
-Core and pool assemblies may carry stationary blocks (they change hands in swaps, cascades and discharge swaps);
-the only excluded point is a FRESH assembly carrying stationary blocks entering through `dischargeSwap`
-(`discharge-fresh-stationary-block-names`), stated as the `NoStat` clause of `BPreP`. -/
+Fresh, core and pool assemblies may all carry stationary blocks (they change hands in swaps, cascades and discharge
+swaps; a fresh assembly's blocks are registered before the exchange, fix 2acbfbd). `BPreP` only asks that charged
+assemblies bring new, distinct blocks and that a fresh discharge swap is not refused. -/
 theorem blocks_run_with_purge (ops : List Op) (s : St) (hI : Inv s) (hB : BInv s) (hok : BRunOK s ops) :
     BInv (run s ops) ∧ Inv (run s ops) := by
   induction ops generalizing s with
@@ -2268,31 +2327,65 @@ def wSt : NSt :=
   ⟨fun n => if n = 6 then some 6 else none,
    fun x => if x = (6, 0) then some 60 else if x = (6, 1) then some 61 else none, 77⟩
 
-/-- **finding `discharge-fresh-stationary-block-names`, in the model** (tracking on): after
-`dischargeSwap(fresh, A0006)` the pooled outgoing assembly holds block 500 under the name `B-5-000`, which
-`blocksByName` does not know; the incoming assembly is A0077 with blocks named B0077-000/001, both found. -/
-theorem finding_pooled_block_not_found :
+/-- **fixed `dischargeSwap`, first step**: a placeholder-numbered incoming assembly is named by the next assembly
+number and every block it holds is registered under its current name (number, axial index) before any block changes
+hands; block objects are unchanged. -/
+theorem nPrepare_keys_current (s : NSt) (a : NAsm) (hneg : a.num < 0) :
+    (nPrepare s a).2.num = s.next ∧ (nPrepare s a).1.next = s.next + 1 ∧
+    (∀ b ∈ (nPrepare s a).2.blocks, b.name.1 = s.next ∧ (nPrepare s a).1.bbn b.name = some b.bid) ∧
+    (nPrepare s a).2.blocks.map (·.bid) = a.blocks.map (·.bid) := by
+  have hnames := renumber_names a s.next
+  have hnd : ((renumber a s.next).blocks.map (·.name)).Nodup := by
+    rw [hnames]
+    exact List.Nodup.map (fun x y h => (Prod.mk.inj h).2) List.nodup_range
+  simp only [nPrepare, hneg, if_true]
+  refine ⟨by simp [renumber], trivial, ?_, ?_⟩
+  · intro b hb
+    constructor
+    · have : b.name ∈ (renumber a s.next).blocks.map (·.name) := List.mem_map.2 ⟨b, hb, rfl⟩
+      rw [hnames] at this
+      obtain ⟨k, _, hk⟩ := List.mem_map.1 this
+      rw [← hk]
+    · simp only [regBlocks, find_rev_of_nodup _ hnd b hb]
+  · unfold renumber
+    simp only [List.map_map]
+    conv_rhs => rw [← List.zipIdx_map_fst 0 a.blocks, List.map_map]
+    rfl
+
+/-- **fixed code, tracking on** (the former finding `discharge-fresh-stationary-block-names`): after
+`dischargeSwap(fresh, A0006)` the pooled outgoing assembly holds block 500 under its current name `B0077-000`, which
+`blocksByName` resolves to it; the incoming assembly A0077 holds the old grid plate under its unchanged name
+`B0006-000` and its own `B0077-001`; every block of both is found under its current name and no key is stale. -/
+theorem discharge_fresh_keys_current_tracked :
     let r := nDischarge wSt wInc wOut true
+    r.2.1.num = 77 ∧ r.1.byName 77 = some 50 ∧
+    r.2.2.blocks.map (fun b => (b.bid, b.name)) = [(500, (77, 0)), (61, (6, 1))] ∧
+    r.2.1.blocks.map (fun b => (b.bid, b.name)) = [(60, (6, 0)), (501, (77, 1))] ∧
+    r.1.bbn (77, 0) = some 500 ∧ r.1.bbn (6, 1) = some 61 ∧ r.1.bbn (6, 0) = some 60 ∧ r.1.bbn (77, 1) = some 501 ∧
+    r.1.bbn (-5, 0) = none ∧ r.1.bbn (-5, 1) = none := by decide
+
+/-- **fixed code, tracking off** (the former finding `stale-block-key-returns-purged-block`): the purged outgoing
+assembly's blocks (the exchanged `B0077-000` included) and name are gone; when the incoming assembly is purged later,
+no key returns any of its blocks. -/
+theorem discharge_fresh_purges_clean :
+    let r := nDischarge wSt wInc wOut false
+    r.1.bbn (77, 0) = none ∧ r.1.bbn (6, 1) = none ∧ r.1.byName 6 = none ∧
+    r.1.bbn (6, 0) = some 60 ∧ r.1.bbn (77, 1) = some 501 ∧
+    (nPurge r.1 r.2.1).bbn (6, 0) = none ∧ (nPurge r.1 r.2.1).bbn (77, 1) = none ∧ (nPurge r.1 r.2.1).byName 77 = none := by
+  decide
+
+/-! the code before fix 2acbfbd (`nDischargeOld`): the two former findings, with their witnesses -/
+
+example :
+    let r := nDischargeOld wSt wInc wOut true
     r.2.2.blocks.map (fun b => (b.bid, b.name)) = [(500, (-5, 0)), (61, (6, 1))] ∧ r.1.bbn (-5, 0) = none ∧
     r.2.1.num = 77 ∧ r.2.1.blocks.map (fun b => (b.bid, b.name)) = [(60, (77, 0)), (501, (77, 1))] ∧
     r.1.bbn (77, 0) = some 60 ∧ r.1.bbn (77, 1) = some 501 := by decide
 
-/-- **finding `stale-block-key-returns-purged-block`, in the model** (either tracking setting; shown with tracking
-off): the old key `B0006-000` still resolves to block 60, now called `B0077-000`; after the incoming assembly is
-purged (`_removeListFromAuxiliaries` deletes the CURRENT names) the old key still returns the purged block. -/
-theorem finding_stale_key_returns_purged :
-    let r := nDischarge wSt wInc wOut false
+example :
+    let r := nDischargeOld wSt wInc wOut false
     r.1.bbn (6, 0) = some 60 ∧ (r.2.1.blocks.map (fun b => (b.bid, b.name))).head? = some (60, (77, 0)) ∧
     r.1.bbn (6, 1) = none ∧ r.1.byName 6 = none ∧
     (nPurge r.1 r.2.1).bbn (77, 0) = none ∧ (nPurge r.1 r.2.1).bbn (6, 0) = some 60 := by decide
-
-/-- with the candidate repair (renumber and register the fresh assembly BEFORE the exchange) both disappear:
-every block of both assemblies is found under its current name and no key is stale -/
-theorem repaired_discharge_keys_current :
-    let a := (nCoreAdd wSt wInc)
-    let r := nDischarge a.1 a.2 wOut true
-    r.2.2.blocks.map (fun b => (b.bid, b.name)) = [(500, (77, 0)), (61, (6, 1))] ∧ r.1.bbn (77, 0) = some 500 ∧
-    r.2.1.blocks.map (fun b => (b.bid, b.name)) = [(60, (6, 0)), (501, (77, 1))] ∧ r.1.bbn (6, 0) = some 60 ∧
-    r.1.bbn (77, 1) = some 501 ∧ r.1.bbn (6, 1) = some 61 := by decide
 
 end ArmiVerif.Shuffle
